@@ -37,7 +37,8 @@ def gen(rng, tier):
     from e2_world import world as W
     from e2_world import catalog as C
     lc = rng.random() < 0.12
-    world = W.gen_world(rng, lc=lc)
+    big = tier == 'thorough' and rng.random() < 0.5
+    world = W.gen_world(rng, lc=lc, max_slabs=6 if big else 4, max_halos=12 if big else 6, max_parts=8 if big else 4)
     inds = [s['index'] for s in world['slabs']]
     kind = rng.choice(['zdir', 'zdir', 'halo_info', 'file', 'list', 'list'])
     order = list(inds)
